@@ -19,7 +19,7 @@ PROP = 'C06'
 def members_for(tree, dsl, tier, U):  # noqa: C901
     """Family of (label, spec, eq_key, nil) built around one tree."""
     fam = []
-    cfgs = e1.configs(tier, predicates=['none', 'is_tuple'])
+    cfgs = e1.configs(tier, predicates=['none', 'tuple_or_none'] if tier == 'quick' else ['none', 'is_tuple', 'tuple_or_none'])
     by_mode = {}
     for c in cfgs:
         by_mode.setdefault(c['mode'], []).append(c)
